@@ -1119,14 +1119,17 @@ class Processor:
                         str(unstripped_attrs)
                     ) from wrap_ex
 
-                if intmin == intmax and len(data) > intmin:
+                if (intmin == intmax
+                        and -len(data) <= intmin < len(data)):
                     yield NodeCoords(
                         [data[intmin]], data, intmin,
                         translated_path + "[{}]".format(intmin),
                         ancestry + [(data, intmin)], pathseg)
                 else:
                     sliced_elements = []
-                    for slice_index in range(intmin, intmax):
+                    (slice_min, slice_max, _) = slice(
+                        intmin, intmax).indices(len(data))
+                    for slice_index in range(slice_min, slice_max):
                         sliced_elements.append(NodeCoords(
                             data[slice_index], data, intmin,
                             translated_path + "[{}]".format(slice_index),
